@@ -1,10 +1,9 @@
 SPECIFICATION MCSpec
 CONSTANTS
   NComp = 2
-  RefKind = 1
+  RefKind = 2
   MaxEv = 2
   OnlyCyclic = FALSE
   DisjTrueAll = FALSE
 CHECK_DEADLOCK FALSE
 INVARIANT Sound
-CONSTRAINT Export
